@@ -188,6 +188,24 @@ def unit_forced(u, rec):
                         rec.close(np.max(np.abs(got - plain)), 1e4 * EPS * scale, f"C12/forced/{e.name}/zero_forcing", "ForcedStepper with zero forcing differs from the base step",
                                   D=D, order=order, state=si, entry=entry)
                 rec.outcome_array(got)
+            # forcing a sub-stepped stepper (wrapper around wrapper around wrapper): the impulse uses the time the wrapped stepper really advances,
+            # T = m*dt for m inner applications; the model is the naive loop of m base calls on u + T*f (no wrapper attribute is trusted)
+            if order == ((0,) if e.linear else (1, 2, 4))[-1] and D == e.dims[0]:
+                for label, m, wrapped in (("R2", 2, ex.RepeatedStepper(base, 2)), ("R2(R3)", 6, ex.RepeatedStepper(ex.RepeatedStepper(base, 3), 2))):
+                    fsw = ex.ForcedStepper(wrapped)
+                    for (si, s), (fi, f) in itertools.product(enumerate(states[:2]), enumerate(forc[1:])):
+                        sj, fj = jnp.asarray(s), jnp.asarray(f)
+                        cur = sj + m * float(base.dt) * fj
+                        for _ in range(m):
+                            cur = base(cur)
+                        want = np.asarray(cur)
+                        if not np.all(np.isfinite(want)):
+                            continue
+                        got = np.asarray(fsw(sj, fj))
+                        scale = max(1.0, float(np.max(np.abs(want))))
+                        rec.count(states=m, transitions=m, traces=1)
+                        rec.close(np.max(np.abs(got - want)), 1e4 * EPS * scale * m, f"C12/forced_substepped/{e.name}/{label}",
+                                  "ForcedStepper around sub-stepping wrappers differs from the unforced evolution over T of u + T*f", D=D, order=order, state=si, forcing=fi)
     rec.sample({"forced_base": e.name, "states": 4, "forcings": 3, "entries": ["__call__", "step", "step_fourier"]})
 
 
